@@ -56,13 +56,13 @@ def gen_shapes(name, seed, count, per_tu=6, extra=()):
         files.append(b)
     return files
 
-_EF_QUICK = gen_shapes("ef_quick", 20260923, int(os.environ.get("VERIF_EF_COUNT", "16")), extra=["--exclude", "K_SIR"])
+_EF_QUICK = gen_shapes("ef_quick", 20260923, int(os.environ.get("VERIF_EF_COUNT", "120")), extra=["--exclude", "K_SIR"])
 _EF_ASSUME = [
     "sequential event mode: one thread, the driver chooses the order of deferred completions and stop requests (schedules at callback granularity, not atomic granularity)",
     "the reference model encodes doc/api_reference.md plus the precedence rules named in the property anchors; a model rule without a citation is not used",
 ]
-for _p in ("C01", "C02", "C04", "C05"):
+for _p in ("C01", "C02", "C04", "C05", "C11", "C12"):
     PROPS[_p] = dict(level="fault_enumeration" if _p == "C02" else "exploration",
-                     units=[Unit("exprfuzz", "harness/exprfuzz.cpp", cfg="p17", extra_src=_EF_QUICK, max_size=90,
+                     units=[Unit("exprfuzz", "harness/exprfuzz.cpp", cfg="p17", extra_src=["exprfuzz/pinned.cpp"] + _EF_QUICK, max_size=90,
                                  quick=(40, 600000), thorough=(600, 30000000))],
                      assumptions=_EF_ASSUME)
